@@ -844,7 +844,7 @@ func nmove(wdt float64, subd int, zeit int, g *GlobalVarsMain, l *NitroSharedVar
 			g.C1[z] = 0
 		}
 	}
-	if subd == 1 && zeit >= g.SAAT[g.AKF.Index] && zeit <= g.ERNTE2[g.AKF.Index] {
+	if subd == 1 && g.SAAT[g.AKF.Index] > 0 && zeit >= g.SAAT[g.AKF.Index] && zeit <= g.ERNTE2[g.AKF.Index] {
 		g.PESUM = g.PESUM + g.SCHNORR
 	}
 }
